@@ -3311,7 +3311,9 @@ bn_mod_inv2(bn_p bn, bn_p m, bn_mod_rd_data_p mod_rd_data) {
 		return (EINVAL);
 	bits = ((4 + MAX(bn->digits, m->digits)) * BN_DIGIT_BITS);
 	BN_RET_ON_ERR(bn_init(&r, bits));
-	BN_RET_ON_ERR(bn_init(&q, bits));
+	/* q also holds q * d1 < m^2 and is then reduced: 2 * digits + 1. */
+	BN_RET_ON_ERR(bn_init(&q, MIN(((size_t)BN_BIT_LEN),
+	    MAX(bits, ((1 + (2 * MAX(bn->digits, m->digits))) * BN_DIGIT_BITS)))));
 	BN_RET_ON_ERR(bn_init(&d, bits));
 	BN_RET_ON_ERR(bn_init(&d1, bits));
 	BN_RET_ON_ERR(bn_init(&d2, bits));
